@@ -102,3 +102,8 @@ package types
 //@   ensures[c02-no-duplicate] err == nil ==> forall a int, b int :: 0 <= a && a < b && b < gN ==> sel(gA, gO + uint64(a)) != sel(gA, gO + uint64(b))
 //@   ensures[c02-root] err == nil ==> self.Header != nil && self.Header.TransactionsRoot == txRootOf(gA, gO, gN)
 //@   ensures[c02-root-of-these] err == nil ==> len(self.Transactions) == gN && forall a int :: 0 <= a && a < gN ==> self.Transactions[a].hash == sel(gA, gO + uint64(a))
+
+//@ uf multiAddrOf(keys uint64, n int, m int) [20]byte
+//@ func AddressFromMultiPubKeys
+//@   trusted   -- program hash of the m-of-n verification program over the keys: a function of the key list and m (C39); the encoder error is swallowed and yields the empty address
+//@   ensures r1 == nil && r0 == multiAddrOf(ref(pubkeys), len(pubkeys), m)
